@@ -2,6 +2,7 @@
     Statements only.  Hypotheses of the statement: the run is fault-free (every candidate read
     answers) and the witnesses stay in place (scan files are never written - C03; a torrent's own
     export files only ever receive correct bytes - C01). *)
+From TB Require Import IndexModel IndexBuild AvailProofs.
 From TB Require Import Base Decimal BencodeModel TorrentModel TorrentProofs PathModel FsModel SolverModel FinderModel RunModel
                        SolverProofs RunProofs FsProofs FaultProofs PreludeProofs TableProofs FinderProofs SearchProofs PresentProofs Generated GeneratedObligations SystemModel SystemProofs GlueProofs EstablishProofs CompleteProofs RunExample RerunProofs AvailProofs TerminationProofs WholeRunProofs.
 From Coq Require Import Permutation Sorted.
@@ -171,6 +172,19 @@ Theorem C02_export_probes_register_the_index_set ans mutok (stat : path -> optio
   run_prelude ans mutok (k (acc ++ flat_map (fun e => match export_registers stat e with Some x => [x] | None => [] end) es)).
 Proof. exact (export_probes_registers ans mutok stat k es acc). Qed.
 
+(** The index itself: what [FileCache]'s insertions ([entry(len).or_default().insert(path, info)])
+    build from the walks' listing and the export probes, in any order and with any repetitions, is
+    exactly the registered set [ix_of_fs] that the theorems above assume - for every file system,
+    table and scan set, provided the walks list every regular file under a scan directory. *)
+Theorem C02_built_index_is_the_registered_set f dev under es0 listing :
+  (forall p i, fs_lookup f p = Some (NFile i) -> under p = true -> In p listing) ->
+  ix_of_fs f dev under es0 (build_index (scan_regs f dev under es0 listing ++ export_regs f dev es0)).
+Proof. exact (built_index_is_ix_of_fs f dev under es0 listing). Qed.
+
+Theorem C02_built_index_holds_exactly_the_registrations regs : functional regs ->
+  forall n p id, IndexBuild.holds (build_index regs) n p id <-> In (n, (p, id)) regs.
+Proof. exact (build_index_spec regs). Qed.
+
 Print Assumptions C02_candidates_complete.
 Print Assumptions C02_candidates_sound.
 Print Assumptions C02_witnesses_give_combination.
@@ -184,3 +198,5 @@ Print Assumptions C02_present_means_recovered.
 Print Assumptions C02_present_piece_recovered_in_every_complete_run.
 Print Assumptions C02_whole_run_present_piece_recovered.
 Print Assumptions C02_export_probes_register_the_index_set.
+Print Assumptions C02_built_index_is_the_registered_set.
+Print Assumptions C02_built_index_holds_exactly_the_registrations.
